@@ -55,6 +55,16 @@ def schema_list(tier):
             {"name": "x", "type": {"type": "fixed", "name": "X", "namespace": "", "size": 2}},
             {"name": "y", "type": {"type": "fixed", "name": "X", "size": 3}}, {"name": "z", "type": "X"}, {"name": "w", "type": {"type": "array", "items": "ns.X"}}]},
         {"type": "error", "name": "Err", "fields": [{"name": "m", "type": "string"}]},
+        # names with underscores in every position the grammar allows (first character of any dotted part included)
+        {"type": "record", "name": "_Top", "namespace": "shop._internal._x", "fields": [
+            {"name": "_f", "type": {"type": "enum", "name": "_E_", "symbols": ["_A", "B_", "_"]}}, {"name": "g", "type": "shop._internal._x._E_"},
+            {"name": "h", "type": {"type": "fixed", "name": "_a._b.F_", "size": 1}}, {"name": "i", "type": "_a._b.F_"}]},
+        {"type": "record", "name": "_", "fields": [{"name": "_", "type": "int"}]},
+        # nested unions with two inline error definitions
+        {"type": "record", "name": "Rpc", "fields": [{"name": "r", "type": ["null", {"type": "error", "name": "NotFound", "fields": [{"name": "m", "type": "string"}]},
+                                                                           {"type": "error", "name": "Denied", "fields": [{"name": "c", "type": "int"}]}, "string"]},
+                                                   {"name": "again", "type": ["Denied", "NotFound"]}]},
+        {"type": "record", "name": "Zero", "fields": [{"name": "z", "type": {"type": "fixed", "name": "Z0", "size": 0}}, {"name": "zz", "type": {"type": "array", "items": "Z0"}}]},
         {"type": "record", "name": "Job", "fields": [
             {"name": "policy", "type": {"type": "record", "name": "Policy", "fields": [
                 {"name": "retries", "type": "int", "default": 0}, {"name": "label", "type": ["null", "string"], "default": None},
